@@ -286,6 +286,14 @@ class Calls(object):
         f = self.cx.func("isinstance_" + cls.replace(".", "_"), a.t.sort(self.cx), B)
         return SV(f(a.e), TBool())
 
+    def spec_klast(self, ev, node, st):
+        (a,) = self._args(ev, node, st)
+        return SV(self.fx.lib.key()["last"](ev.coerce_key(a, TKey()).e), TStr())
+
+    def spec_kfront(self, ev, node, st):
+        (a,) = self._args(ev, node, st)
+        return SV(self.fx.lib.key()["front"](ev.coerce_key(a, TKey()).e), TKey())
+
     def spec_b2i(self, ev, node, st):
         (a,) = self._args(ev, node, st)
         return SV(z3.If(ev.truthy(a), 1, 0), TInt())
@@ -394,6 +402,12 @@ class Calls(object):
             return a
         raise Outside("bytearray of %s" % a.t)
 
+    def bi_set(self, ev, node, st):
+        if node.args:
+            raise Outside("set(iterable)")
+        t = TMap(TObj(), TBool())
+        return SV(None, t, {"empty_set": True})
+
     def bi_next(self, ev, node, st):
         """next(iterable, default) over a finite sequence value: its first element, or the default"""
         if len(node.args) != 2:
@@ -489,6 +503,11 @@ class Calls(object):
             return self.dict_method(ev, recv, recv_node, name, node, st)
         if isinstance(t, TStr):
             return self.str_method(ev, recv, name, node, st)
+        if isinstance(t, TMap) and isinstance(t.v, TBool) and name == "add":
+            # Python set stored as a membership map: s.add(x) re-binds the container
+            (a,) = self._args(ev, node, st)
+            self.rebind(ev, recv_node, SV(z3.Store(recv.e, ev.coerce(a, t.k, "set element").e, z3.BoolVal(True)), t), st, node)
+            return SV(None, TNone())
         if isinstance(t, TRef):
             c = self.fx.session.lookup_method(t.cls, name)
             if c is None:
@@ -731,7 +750,10 @@ class Calls(object):
                     if cond is not None and c.get("raises_exact", True):
                         post.assume(z3.Not(cev.truthy(cev.ev(sess.parse_spec(cond), pre))))
             for e_src in list(c.get("ensures", [])) + list(c.get("assumed_ensures", [])):
-                post.assume(cev.truthy(cev.ev(sess.parse_spec(e_src), post)))
+                tree = sess.parse_spec(e_src)
+                if any(isinstance(n, ast.Name) and n.id.startswith("g_") for n in ast.walk(tree)):
+                    continue    # postcondition over the callee's ghost locals: internal to its proof, not visible to callers
+                post.assume(cev.truthy(cev.ev(tree, post)))
         finally:
             post.old_heap, post.old_env = saved_old
         if res is None:
